@@ -36,7 +36,96 @@ Section E.
                                     getattr (getattr model "arguments") "sparsity_weight"; pool];
      Ev "setitem" [tasks_before; vint (Z.of_nat k); t]].
 
-  (* STATEMENTS (to be proved):
+  (* ---------------------------------------------------------------- the monad, one step at a time *)
+
+  Lemma bind_call : forall (B : Type) (f : string) (a : list V) (k : V -> M V B) (log : list (event V)),
+    mbind (call oracle f a) k log
+    = match oracle log f a with
+      | Ret v => k v (log ++ [Ev f a])%list
+      | Raise e => (Raise e, (log ++ [Ev f a])%list)
+      end.
+  Proof.
+    intros B f a k log. unfold mbind, call.
+    destruct (oracle log f a) as [v|e]; reflexivity.
+  Qed.
+
+  Lemma bind_ret : forall (A B : Type) (a : A) (k : A -> M V B) (log : list (event V)),
+    mbind (mret a) k log = k a log.
+  Proof. intros A B a k log. reflexivity. Qed.
+
+  Lemma snoc2 : forall (A : Type) (l : list A) (a : A) (t : list A), ((l ++ [a]) ++ t = l ++ a :: t)%list.
+  Proof. intros A l a t. rewrite <- app_assoc. reflexivity. Qed.
+
+  Lemma ret_inj : forall (A L : Type) (a b : A) (l1 l2 : L), (Ret a, l1) = (Ret b, l2) -> a = b /\ l1 = l2.
+  Proof. intros A L a b l1 l2 H. inversion H. split; reflexivity. Qed.
+
+  Lemma mbind_ret_inv : forall (A B : Type) (m : M V A) (k : A -> M V B) (log log' : list (event V)) (b : B),
+    mbind m k log = (Ret b, log') -> exists a l1, m log = (Ret a, l1) /\ k a l1 = (Ret b, log').
+  Proof.
+    intros A B m k log log' b H. unfold mbind in H.
+    destruct (m log) as [[a|e] l1] eqn:Hm.
+    - exists a, l1. split; [reflexivity|exact H].
+    - discriminate H.
+  Qed.
+
+  (* ---------------------------------------------------------------- the gather loop *)
+
+  (* the body of the loop of _retrieve_optimization_results, as generated (the two lets unfolded) *)
+  Definition gather_body (model updated : V) : unit -> V -> M V unit := fun _ t3_ =>
+    if negb (is_none (getattr t3_ "[1]")) then
+      t4_ <<- call oracle "method:get" [getattr t3_ "[1]"] ;;
+      t5_ <<- call oracle "_update_cluster_covariances" [model; getattr t3_ "[0]"; getattr t4_ "theta"] ;;
+      t6_ <<- call oracle "method:append" [updated; t5_] ;;
+      mret tt
+    else mraise "AssertionError".
+
+  Lemma gather_body_inv (model updated item : V) (u0 u : unit) (log0 log1 : list (event V)) :
+    gather_body model updated u0 item log0 = (Ret u, log1) ->
+    is_none (getattr item "[1]") = false /\
+    exists got upd, log1 = (log0 ++ item_events model updated item got upd)%list.
+  Proof.
+    unfold gather_body.
+    destruct (is_none (getattr item "[1]")) eqn:Hn; cbn [negb]; intros H.
+    - unfold mraise in H. discriminate H.
+    - split; [reflexivity|].
+      rewrite bind_call in H.
+      match type of H with
+      | match ?o with _ => _ end = _ => destruct o as [got|e1] eqn:Hget; [|discriminate H]
+      end.
+      rewrite bind_call in H.
+      match type of H with
+      | match ?o with _ => _ end = _ => destruct o as [upd|e2] eqn:Hupd; [|discriminate H]
+      end.
+      rewrite bind_call in H.
+      match type of H with
+      | match ?o with _ => _ end = _ => destruct o as [ap|e3] eqn:Happ; [|discriminate H]
+      end.
+      unfold mret in H. apply ret_inj in H. destruct H as [_ Hlog].
+      exists got, upd. rewrite <- Hlog. unfold item_events. rewrite !snoc2. reflexivity.
+  Qed.
+
+  Lemma gather_loop (model updated : V) : forall (items : list V) (u0 u : unit) (log0 log1 : list (event V)),
+    for_each (gather_body model updated) items u0 log0 = (Ret u, log1) ->
+    exists gots upds,
+      length gots = length items /\ length upds = length items /\
+      log1 = (log0 ++ gather_events model updated items gots upds)%list /\
+      Forall (fun item => is_none (getattr item "[1]") = false) items.
+  Proof.
+    induction items as [|item items IH]; intros u0 u log0 log1 H.
+    - cbn [for_each] in H. unfold mret in H. apply ret_inj in H. destruct H as [_ Hlog].
+      exists [], []. split; [reflexivity|]. split; [reflexivity|]. split.
+      + cbn [gather_events]. rewrite app_nil_r. symmetry. exact Hlog.
+      + constructor.
+    - cbn [for_each] in H. apply mbind_ret_inv in H. destruct H as (u1 & l1 & Hbody & Hrest).
+      apply gather_body_inv in Hbody. destruct Hbody as (Hnone & got & upd & Hl1).
+      apply IH in Hrest. destruct Hrest as (gots & upds & Hlg & Hlu & Hlog & Hall).
+      exists (got :: gots), (upd :: upds).
+      split; [cbn [length]; rewrite Hlg; reflexivity|].
+      split; [cbn [length]; rewrite Hlu; reflexivity|].
+      split.
+      + cbn [gather_events]. rewrite Hlog, Hl1. rewrite <- app_assoc. reflexivity.
+      + constructor; assumption.
+  Qed.
 
   (* 1. gather: a call of _retrieve_optimization_results that returns fetched the results and appended the updated clusters
         strictly in the order of  zip(model.clusters, optimization_tasks):  for the k-th pair, task.get() of ITS task, then
@@ -51,6 +140,29 @@ Section E.
                   ++ [Ev "method:shallow_copy" [model]; Ev "setattr:clusters" [m1; updated]])%list /\
       oracle (log ++ [Ev "expr:[]" []])%list "zip" [getattr model "clusters"; tasks] = Ret z /\
       Forall (fun item => is_none (getattr item "[1]") = false) (as_list z).
+  Proof.
+    intros Hrun.
+    unfold g_retrieve_optimization_results in Hrun.
+    rewrite bind_call in Hrun.
+    destruct (oracle log "expr:[]" []) as [updated|e1] eqn:Hnew; [|discriminate Hrun].
+    rewrite bind_call in Hrun.
+    destruct (oracle (log ++ [Ev "expr:[]" []])%list "zip" [getattr model "clusters"; tasks]) as [z|e2] eqn:Hzip;
+      [|discriminate Hrun].
+    apply mbind_ret_inv in Hrun. destruct Hrun as (u & l1 & Hloop & Hrest).
+    change (for_each (gather_body model updated) (as_list z) tt
+              ((log ++ [Ev "expr:[]" []]) ++ [Ev "zip" [getattr model "clusters"; tasks]])%list = (Ret u, l1)) in Hloop.
+    apply gather_loop in Hloop. destruct Hloop as (gots & upds & Hlg & Hlu & Hl1 & Hall).
+    rewrite bind_call in Hrest.
+    destruct (oracle l1 "method:shallow_copy" [model]) as [m1|e3] eqn:Hcopy; [|discriminate Hrest].
+    rewrite bind_call in Hrest.
+    match type of Hrest with
+    | match ?o with _ => _ end = _ => destruct o as [m2|e4] eqn:Hset; [|discriminate Hrest]
+    end.
+    unfold mret in Hrest. apply ret_inj in Hrest. destruct Hrest as [_ Hlog].
+    exists updated, z, gots, upds, m1.
+    split; [exact Hlg|]. split; [exact Hlu|]. split; [|split; [reflexivity|exact Hall]].
+    rewrite <- Hlog, Hl1. rewrite <- !app_assoc. reflexivity.
+  Qed.
 
   (* 2. scatter: _setup_optimization_task hands the pool exactly  admm.admm_optimize_theta, the argument list built from
         (cluster.empirical_covariance, density_penalty, window_size, num_data_series) and the fixed keyword dictionary *)
@@ -60,6 +172,87 @@ Section E.
       log' = (log ++ [Ev "expr:[cluster.empirical_covariance, density_penalty, window_size, num_data_series]" [cluster; lam; N; W];
                       Ev "expr:{'rho': 1, 'rho_update': None, 'max_iterations': 1000, 'relative_tolerance': 1e-06, 'absolute_tolerance': 1e-06, 'verbose': False}" [];
                       Ev "method:apply_async" [pool; vglobal "admm.admm_optimize_theta"; args; kwargs]])%list.
+  Proof.
+    intros Hrun.
+    unfold g_setup_optimization_task in Hrun.
+    rewrite bind_call in Hrun.
+    match type of Hrun with
+    | match ?o with _ => _ end = _ => destruct o as [args|e1] eqn:Hargs; [|discriminate Hrun]
+    end.
+    rewrite bind_call in Hrun.
+    match type of Hrun with
+    | match ?o with _ => _ end = _ => destruct o as [kwargs|e2] eqn:Hkw; [|discriminate Hrun]
+    end.
+    rewrite bind_call in Hrun.
+    match type of Hrun with
+    | match ?o with _ => _ end = _ => destruct o as [task|e3] eqn:Htask; [|discriminate Hrun]
+    end.
+    unfold mret in Hrun. apply ret_inj in Hrun. destruct Hrun as [_ Hlog].
+    exists args, kwargs.
+    rewrite <- Hlog. rewrite !snoc2. reflexivity.
+  Qed.
+
+  (* ---------------------------------------------------------------- the scatter loop *)
+
+  (* the body of the loop of optimize_markov_random_fields, as generated *)
+  Definition scatter_body (model N pool : V) : V -> Z -> M V (V * bool) := fun optimization_tasks cluster_id =>
+    t6_ <<- call oracle "getitem" [getattr model "clusters"; vint cluster_id] ;;
+    t7_ <<- call oracle "_setup_optimization_task" [t6_; N; getattr (getattr model "arguments") "window_size";
+                                                    getattr (getattr model "arguments") "sparsity_weight"; pool] ;;
+    optimization_tasks <<- call oracle "setitem" [optimization_tasks; vint cluster_id; t7_] ;;
+    mret (optimization_tasks, false).
+
+  Lemma scatter_body_inv (model N pool tasks : V) (k : nat) (sb : V * bool) (log0 log1 : list (event V)) :
+    scatter_body model N pool tasks (Z.of_nat k) log0 = (Ret sb, log1) ->
+    snd sb = false /\
+    exists c t, log1 = (log0 ++ setup_events model N pool tasks k c t)%list.
+  Proof.
+    unfold scatter_body. intros H.
+    rewrite bind_call in H.
+    match type of H with
+    | match ?o with _ => _ end = _ => destruct o as [c|e1] eqn:Hget; [|discriminate H]
+    end.
+    rewrite bind_call in H.
+    match type of H with
+    | match ?o with _ => _ end = _ => destruct o as [t|e2] eqn:Hsetup; [|discriminate H]
+    end.
+    rewrite bind_call in H.
+    match type of H with
+    | match ?o with _ => _ end = _ => destruct o as [tasks1|e3] eqn:Hset; [|discriminate H]
+    end.
+    unfold mret in H. apply ret_inj in H. destruct H as [Hsb Hlog].
+    split; [rewrite <- Hsb; reflexivity|].
+    exists c, t. rewrite <- Hlog. unfold setup_events. rewrite !snoc2. reflexivity.
+  Qed.
+
+  Lemma scatter_loop (model N pool : V) : forall (n k : nat) (tasks tasks' : V) (log0 log1 : list (event V)),
+    for_break (scatter_body model N pool) (map Z.of_nat (seq k n)) tasks log0 = (Ret tasks', log1) ->
+    exists ext,
+      log1 = (log0 ++ ext)%list /\ length ext = (3 * n)%nat /\
+      (forall j, (j < n)%nat ->
+         exists c t tb, firstn 3 (skipn (3 * j) ext) = setup_events model N pool tb (k + j) c t).
+  Proof.
+    induction n as [|n IH]; intros k tasks tasks' log0 log1 H.
+    - cbn [seq map for_break] in H. unfold mret in H. apply ret_inj in H. destruct H as [_ Hlog].
+      exists []. split; [rewrite app_nil_r; symmetry; exact Hlog|]. split; [reflexivity|].
+      intros j Hj. lia.
+    - cbn [seq map for_break] in H. apply mbind_ret_inv in H. destruct H as (sb & l1 & Hbody & Hrest).
+      apply scatter_body_inv in Hbody. destruct Hbody as (Hnb & c & t & Hl1).
+      rewrite Hnb in Hrest.
+      apply IH in Hrest. destruct Hrest as (ext' & Hlog & Hlen & Hext).
+      exists (setup_events model N pool tasks k c t ++ ext')%list.
+      split; [rewrite Hlog, Hl1; rewrite <- app_assoc; reflexivity|].
+      split; [rewrite app_length, Hlen; unfold setup_events; cbn [length]; lia|].
+      intros j Hj. destruct j as [|j].
+      + exists c, t, tasks. replace (k + 0)%nat with k by lia.
+        unfold setup_events. reflexivity.
+      + assert (Hj' : (j < n)%nat) by lia.
+        destruct (Hext j Hj') as (c' & t' & tb & Htriple).
+        exists c', t', tb.
+        replace (3 * S j)%nat with (S (S (S (3 * j)))) by lia.
+        replace (k + S j)%nat with (S k + j)%nat by lia.
+        rewrite <- Htriple. unfold setup_events. reflexivity.
+  Qed.
 
   (* 3. the optimise phase sets the tasks up in cluster order 0 .. K-1 - each with the cluster fetched at that index, the number
         of series, the window size, the user's sparsity weight and the pool - and then gathers; it raises before any task is
@@ -77,5 +270,48 @@ Section E.
       length ext = (3 * Z.to_nat K)%nat /\
       (forall k, (k < Z.to_nat K)%nat ->
          exists c t tb, firstn 3 (skipn (3 * k) ext) = setup_events model N pool tb k c t).
-  *)
+  Proof.
+    intros HK Hrun.
+    unfold g_optimize_markov_random_fields in Hrun.
+    rewrite bind_call in Hrun.
+    match type of Hrun with
+    | match ?o with _ => _ end = _ => destruct o as [q|e1] eqn:Hdiv; [|discriminate Hrun]
+    end.
+    rewrite bind_call in Hrun.
+    match type of Hrun with
+    | match ?o with _ => _ end = _ => destruct o as [N|e2] eqn:Hint; [|discriminate Hrun]
+    end.
+    rewrite bind_call in Hrun.
+    match type of Hrun with
+    | match ?o with _ => _ end = _ => destruct o as [none|e3] eqn:Hnone; [|discriminate Hrun]
+    end.
+    rewrite bind_call in Hrun.
+    match type of Hrun with
+    | match ?o with _ => _ end = _ => destruct o as [tasks0|e4] eqn:Hmul; [|discriminate Hrun]
+    end.
+    unfold need_int in Hrun. rewrite HK in Hrun. rewrite bind_ret in Hrun.
+    apply mbind_ret_inv in Hrun. destruct Hrun as (tasks_final & l1 & Hloop & Hrest).
+    unfold zrange in Hloop.
+    match type of Hloop with
+    | for_break _ _ _ ?l = _ =>
+      change (for_break (scatter_body model N pool) (map Z.of_nat (seq 0 (Z.to_nat K))) tasks0 l = (Ret tasks_final, l1)) in Hloop
+    end.
+    apply scatter_loop in Hloop. destruct Hloop as (ext & Hl1 & Hlen & Hext).
+    rewrite bind_call in Hrest.
+    match type of Hrest with
+    | match ?o with _ => _ end = _ => destruct o as [res|e5] eqn:Hretr; [|discriminate Hrest]
+    end.
+    unfold mret in Hrest. apply ret_inj in Hrest. destruct Hrest as [_ Hlog].
+    exists q, N, none, tasks0, ext, tasks_final.
+    split; [|split; [exact Hint|split; [|split; [exact Hlen|]]]].
+    - rewrite <- Hlog, Hl1. rewrite <- !app_assoc. reflexivity.
+    - rewrite !snoc2 in Hmul. exact Hmul.
+    - intros k Hk. destruct (Hext k Hk) as (c & t & tb & Htriple).
+      exists c, t, tb. exact Htriple.
+  Qed.
+
 End E.
+
+Print Assumptions retrieve_returns.
+Print Assumptions setup_returns.
+Print Assumptions optimize_returns.
